@@ -28,8 +28,8 @@ LEVEL = 'exploration'
 VERSION = 1
 BUDGET = {'quick': 50, 'thorough': 600}
 CHUNK = {'quick': 8, 'thorough': 16}
-RULE = ('one case = one seeded seed task (grid: factor 2 / sqrt2 / custom resolution list, square or non-square extent, ll or '
-        'ul origin; level subset as list / range / open or zero-ended range / beyond the last level / by resolution; coverage: none / bbox / concave polygon / multi-polygon / edge-hugging bbox, in the grid SRS or spelled in EPSG:4326; meta size 1-3; progress cadence; '
+RULE = ('one case = one seeded seed task (grid: factor 2 / sqrt2 / custom resolution list / resolutions with near-coincident tile borders, square or non-square extent, ll or '
+        'ul origin; level subset as list / range / open or zero-ended range / beyond the last level / by resolution; coverage: none / bbox / concave polygon / multi-polygon / edge-hugging bbox / exactly one coarse tile / two coverages, in the grid SRS or spelled in EPSG:4326; meta size 1-3; progress cadence; '
         'per-hand-off simulated work time) run once uninterrupted and once with 1-3 seeded interruptions (exception or hard '
         'kill at a hand-off, at a line event of the seeding code, or inside the progress-file write) each followed by a '
         'restart from the saved progress; non-trivial = the interrupted run resumed from a non-empty progress file and '
